@@ -557,7 +557,12 @@ def case_history(col, p):
             Godambe.cache.clear()
             gc.collect()
             for pos, nm in enumerate(seq):
-                got = np.array(OPS[nm](), dtype=float)
+                try:
+                    got = np.array(OPS[nm](), dtype=float)
+                except Exception as e:
+                    col.tick(transitions=1)
+                    col.violation('C19:raises_after_call_history', dict(p, seq=seq, at=pos), '%s: %s' % (type(e).__name__, str(e)[:200]))
+                    break
                 col.tick(transitions=1)
                 if not np.allclose(got, fresh[nm], rtol=1e-10, atol=0, equal_nan=True):
                     col.violation('C19:result_depends_on_call_history', dict(p, seq=seq, at=pos), {'got': got, 'fresh': fresh[nm]})
